@@ -14,3 +14,22 @@ Definition stmt_feasible_meaning : Prop :=
     length net = length f /\
     (forall e x, In (e, x) (combine net f) -> fe_lower e <= x <= fe_upper e) /\
     (forall v, net_flow_at net f v = 0).
+
+(* Using a depot edge (spawning a vehicle) is never free: whenever something has to be covered over a positive
+   planning horizon the spawning cost is positive — also when every cost rate of the instance is zero (the
+   pre-repair formula, without the lower bound 1 on the rate, gave 0 there). *)
+Definition spawning_cost_prefix (nw : network) (ty : Z) (slots : list (node_id * Z)) : Z :=
+  let P := nw_params nw in
+  fold_left Z.max [c_service P; c_maint P; c_dh P; c_idle P] (c_staff P) * 3 * planning_s nw * total_lower_bound nw ty slots.
+Definition stmt_spawning_cost_positive : Prop :=
+  forall nw ty slots, 0 < planning_s nw -> 0 < total_lower_bound nw ty slots -> 0 < spawning_cost nw ty slots.
+Definition stmt_spawning_cost_dominates_rates : Prop :=
+  forall nw ty slots, 0 <= planning_s nw -> 0 <= total_lower_bound nw ty slots ->
+    let P := nw_params nw in
+    forall c, In c [c_staff P; c_service P; c_maint P; c_dh P; c_idle P] ->
+      c * 3 * planning_s nw * total_lower_bound nw ty slots <= spawning_cost nw ty slots.
+Definition stmt_spawning_cost_prefix_zero : Prop :=
+  forall nw ty slots,
+    let P := nw_params nw in
+    c_staff P = 0 -> c_service P = 0 -> c_maint P = 0 -> c_dh P = 0 -> c_idle P = 0 ->
+    spawning_cost_prefix nw ty slots = 0.
